@@ -1,3 +1,4 @@
+import Rtcm.Lemmas.Helpers
 import Rtcm.Lemmas.Bits
 import Rtcm.Lemmas.Decode
 import Rtcm.Props.Base
@@ -239,5 +240,19 @@ example : (match layout T ⟨1077, none⟩ 1 ((getDict T ⟨1077, none⟩).getD 
     | .ok ls => (ls.vals.length, ls.s.off, ls.cells.length,
         match identity (packBytes ls.cells) with | .ok id => id.num | _ => 0)
     | .error _ => (1, 0, 0, 0)) = (0, 565, 45, 1077) := by decide +kernel
+
+/-! ### the public bit helper `get_bit` reads the same bit the decoder reads -/
+
+/-- `get_bit(data, num)` is the decoder's one-bit field at offset `num` of the same bytes, for every
+    byte string and every position inside it -/
+theorem C03_get_bit_is_field_bit (bs : Bytes) (num : Nat) (h : num < 8 * bs.length) :
+    getBit bs num = extract (Payload.ofBytes bs) num 1 := getBit_eq_extract bs num h
+
+/-- … and outside the data both refuse (IndexError / the decoder's past-the-end refusal) -/
+theorem C03_get_bit_outside (bs : Bytes) (num : Nat) (h : 8 * bs.length ≤ num) :
+    getBit bs num = none ∧ extract (Payload.ofBytes bs) num 1 = none := getBit_none bs num h
+
+example : getBit [0xD3, 0x00, 0x13] 0 = some 1 ∧ getBit [0xD3, 0x00, 0x13] 2 = some 0
+    ∧ getBit [0xD3, 0x00, 0x13] 23 = some 1 ∧ getBit [0xD3, 0x00, 0x13] 24 = none := by decide
 
 end Rtcm
